@@ -56,6 +56,8 @@ type cwRun struct {
 	attempt      int
 	seqBehind    string
 	seqBehindTxt string
+	seqReorg      map[string]bool // compact/merge operations seen in flight while the current sequencer reload was loading
+	seqBehindReorg string         // value of attribute reorg_during_reload, fixed when a reload finished behind an ordered file
 	unlistedBeforeRestart string // "yes": at some clean close of this run a data file was on disk but in no in-memory list
 	unlistedTxt           string
 	plantFile    immutable.TSSPFile
@@ -753,6 +755,19 @@ func (run *cwRun) observe() *core.Violation {
 	// asynchronous sequencer reload (started by the first write after a restart)
 	if !run.closed && run.node != nil && run.node.sh != nil {
 		l := cwSeqLoading(run.node)
+		if l || run.seqLoading {
+			// which file reorganisations overlapped the reload (diagnostic label only): operations
+			// in flight at any observation while the reload was loading, first and last included
+			// (tasks that finished in this step are still in run.cur here)
+			if run.seqReorg == nil || (l && !run.seqLoading) {
+				run.seqReorg = map[string]bool{}
+			}
+			for k := range run.inflightSet() {
+				if k == "compact" || k == "merge" {
+					run.seqReorg[k] = true
+				}
+			}
+		}
 		if l != run.seqLoading {
 			run.seqLoading = l
 			run.h.bg("seq_reload", l, run.step)
@@ -766,6 +781,10 @@ func (run *cwRun) observe() *core.Violation {
 					if a, txt := cwDiag(run.node, m); a["seq_behind"] == "yes" {
 						run.seqBehind = "yes"
 						run.seqBehindTxt = txt
+						run.seqBehindReorg = "none"
+						if len(run.seqReorg) > 0 {
+							run.seqBehindReorg = cwSortedSet(run.seqReorg) // "compact", "merge" or "compact+merge"
+						}
 						run.out.Probes["sequencer reload finished behind an ordered file"]++
 					}
 				}
